@@ -325,6 +325,7 @@ fn build_world(out: &mut Out) -> World {
         (14, b"n\xff".to_vec()),        // not UTF-8
         (15, "n\u{fffd}".as_bytes().to_vec()), // what decode_utf8_lossy makes of it
         (16, b"S1".to_vec()),
+        (17, b"slapd-localhost:3890.sock".to_vec()), // a colon that belongs to the path (reaches the URL only as %3A)
     ];
     for (id, n) in names {
         let mut p = dir.as_os_str().as_bytes().to_vec();
